@@ -239,6 +239,11 @@ def _parse_output(res: TlcResult) -> None:
             res.tuples.append(line)
     for m in _RE_STATES.finditer(res.out):
         res.generated, res.distinct = int(m.group(1)), int(m.group(2))
+    if res.generated == 0:
+        ms = re.search(r'The number of states generated: (\d+)', res.out) or \
+            re.search(r'Progress: (\d+) states checked', res.out)
+        if ms:                    # simulation mode
+            res.generated = int(ms.group(1))
     m = _RE_DEPTH.search(res.out)
     if m:
         res.depth = int(m.group(1))
